@@ -96,7 +96,7 @@ func (gn *Geneve) DecodeFromBytes(data []byte, df gopacket.DecodeFeedback) error
 	copy(buf[1:], data[4:7])
 	gn.VNI = binary.BigEndian.Uint32(buf[:])
 
-	offset, length := uint8(8), int32(gn.OptionsLength)
+	offset, length := 8, int32(gn.OptionsLength)
 	if len(data) < int(length+8) {
 		df.SetTruncated()
 		return errors.New("geneve packet too short")
@@ -110,7 +110,7 @@ func (gn *Geneve) DecodeFromBytes(data []byte, df gopacket.DecodeFeedback) error
 		gn.Options = append(gn.Options, opt)
 
 		length -= int32(len)
-		offset += len
+		offset += int(len)
 	}
 
 	gn.BaseLayer = BaseLayer{data[:offset], data[offset:]}
